@@ -228,6 +228,19 @@ def many_regions_case(seed, i):
     return core.ImplOnlyCase("backend", lines, {"engine": "tikv", "borders": [], "adv": [], "many": nreg}, timeout=180)
 
 
+def many_batches_case(seed, i):
+    """more batches than the stream's buffer holds (1000): one injected partition per key, each flushing its own partial batch, and a
+    consumer that starts reading late - the buffer is full when the scan ends. The terminator is still there, exactly one, last."""
+    r = rng_for(seed, "c13mb/%d" % i)
+    n = r.randint(1050, 1200)
+    pfx = PREFIX + b"/mb/"
+    borders = [enc(pfx + (b"%05d" % j), 0) for j in range(1, n)]
+    lines = [hist.cfg_line("memkv", splits=",".join(hx(b) for b in borders)), "bulk %d %s %s" % (n, hx(pfx), hx(b"v")), "settle", "rev"]
+    a, b = PREFIX + b"/", PREFIX + b"0"
+    lines += ["stream %s %s 0 slow=700" % (hx(enc(a, 0)), hx(enc(b, 0))), "count %s %s" % (hx(a), hx(b))]
+    return core.ImplOnlyCase("backend", lines, {"engine": "memkv", "borders": [], "adv": [], "many_batches": n}, timeout=180)
+
+
 def reopen_case(seed, i, engine):
     """the node is restarted over the same data in the middle of a history (Badger: the store is closed - its memtable becomes an
     sst table - and opened again): however the engine cuts a scanned interval afterwards, unlimited and limited lists, counts,
@@ -268,6 +281,7 @@ def check(rep, tier, seed):
     cases += [slow_partner_case(seed, i, ["memkv", "tikv", "badger"][i % 3]) for i in range(1 if tier == "quick" else 6)]
     cases += [many_regions_case(seed, i) for i in range(1 if tier == "quick" else 4)]
     cases += [reopen_case(seed, i, ["badger", "metrics-badger", "memkv", "tikv"][i % 4]) for i in range(6 if tier == "quick" else 120)]
+    cases += [many_batches_case(seed, i) for i in range(1 if tier == "quick" else 4)]
     core.run_cases(cases)
     def pick(c):
         hit = fault_oracle(c) if c.meta.get("fault") else oracle(c)
